@@ -593,3 +593,25 @@ func (c *UConn) echTranscriptMsg(outer *clientHelloMsg, echCtx *echClientContext
 
 	return nil
 }
+
+// utlsHelloOffersEMS reports whether the ClientHello that is going to be sent
+// carries the extended_master_secret extension. A hello marshaled by uTLS takes
+// its extensions from uconn.Extensions, not from hello.extendedMasterSecret
+// (which makeClientHelloForApplyPreset sets unconditionally).
+func (c *Conn) utlsHelloOffersEMS(hello *clientHelloMsg) bool {
+	sc := c.utls.sessionController
+	if sc == nil || sc.uconnRef == nil || sc.uconnRef.ClientHelloID == HelloGolang {
+		return hello.extendedMasterSecret
+	}
+	for _, ext := range sc.uconnRef.Extensions {
+		switch e := ext.(type) {
+		case *ExtendedMasterSecretExtension:
+			return true
+		case *GenericExtension:
+			if e.Id == extensionExtendedMasterSecret {
+				return true
+			}
+		}
+	}
+	return false
+}
